@@ -204,6 +204,34 @@ def _boundary_case(args):
     return out
 
 
+def _wide_int_case(args):
+    """64-bit integers beyond 2^53 (not representable in float64) must come back exactly in every encoding"""
+    dtype, wd = args
+    from cell_type_mapper.anndata_iterator.anndata_iterator import AnnDataRowIterator
+    big = [2 ** 53 + 1, 2 ** 62 + 3, 2 ** 53 + 7, 9007199254740993]
+    M = np.zeros((5, 4), dtype=dtype)
+    M[0, 0], M[1, 3], M[3, 1], M[4, 2] = big
+    M[2, 2] = 5
+    out = []
+    d = tempfile.mkdtemp(dir=wd)
+    try:
+        for enc in ('dense', 'csr', 'csc'):
+            p = os.path.join(d, f'{enc}.h5ad')
+            write_matrix(p, M, enc, None, dtype, 'default')
+            for gb in (1.0, 1e-9):
+                it = AnnDataRowIterator(p, row_chunk_size=2, tmp_dir=d, max_gb=gb)
+                got = np.vstack([np.asarray(c[0]) for c in it])
+                if got.dtype.kind not in 'iu' or not np.array_equal(got.astype(object), M.astype(object)):
+                    out.append(('rows:wide-integers', f'{enc} {dtype} max_gb={gb}: {got.tolist()} != {M.tolist()} '
+                                                      f'(returned dtype {got.dtype})'))
+                del it
+    except Exception as e:
+        out.append(('rows:wide-integers-exception', f'{dtype}: {type(e).__name__}: {e}'))
+    finally:
+        shutil.rmtree(d, ignore_errors=True)
+    return out
+
+
 def run(ctx):
     quick = ctx.tier == 'quick'
     rng = random.Random(ctx.seed + 5)
@@ -278,6 +306,10 @@ def run(ctx):
             for sig, msg in bad[:2]:
                 ctx.report(sig, msg, {'boundary': [nr, nc]})
         ctx.part('boundary', shapes=len(bj))
+        for dt in ('int64', 'uint64'):
+            ctx.count({'wide': dt}, nontrivial=True)
+            for sig, msg in _wide_int_case((dt, wd))[:2]:
+                ctx.report(sig, msg, {'wide': dt})
     if ctx.only in (None, 'c2s') and all_traces:
         tr = all_traces[:400]
         vs = validate(ctx, 'RowAccess_Trace', tr, 'RowAccess_Trace')
